@@ -126,7 +126,10 @@ def cases(tier, seed):
     envs = [None, 'k=v', 'k=v,service.name=x', 'bad', 'k=a%20b,telemetry.sdk.name=evil', ' k = v ', 'k=v,k=w']
     for ei, e in enumerate(envs):
         for sn in (None, 'svc', ''):
-            for code in (None, {'k': 'code'}, {'service.name': 'codesvc'}, {'telemetry.sdk.language': 'cobol'}):
+            for code in (None, {'k': 'code'}, {'service.name': 'codesvc'}, {'telemetry.sdk.language': 'cobol'},
+                         # the attribute the default service name is derived from, with every valid attribute value type
+                         {'process.executable.name': 'worker'}, {'process.executable.name': 1234}, {'process.executable.name': 1.5},
+                         {'process.executable.name': True}, {'process.executable.name': ('a', 'b')}, {'process.executable.name': b'exe'}):
                 out.append({'k': 'create', 'env': e, 'sn': sn, 'code': code})
     for e in (None, 'k=v,service.name=x'):
         for plist in ([], ['ResA'], ['ResA', 'ResB'], ['ResB', 'ResA']):
@@ -336,7 +339,7 @@ def ref_create(env, sn, code):
     if sn:
         envmap['service.name'] = sn
     attrs.update(envmap)
-    attrs.update(code or {})
+    attrs.update({k: (v.decode() if isinstance(v, bytes) else v) for k, v in (code or {}).items()})
     return attrs
 
 
